@@ -97,8 +97,15 @@ func c01Oracle(j *productJob, c *run.Ctx, pc *pathCase, di, m int, out *spec.Out
 	fres, fdoc := j.freshEval(pc.r.Text, m, di)
 	fout := spec.Eval(pc.p, fdoc, j.env.Model)
 	if fok, fkind, fdetail := c01Judge(&fout, fres); fok {
-		c.Add("history_dependence_seen", 1)
-		return
+		// once more as the first call of a new process would run: with empty pools
+		cres, cdoc := j.freshEvalCold(pc.r.Text, m, di)
+		cout := spec.Eval(pc.p, cdoc, j.env.Model)
+		cok, ckind, cdetail := c01Judge(&cout, cres)
+		if cok {
+			c.Add("history_dependence_seen", 1)
+			return
+		}
+		kind, detail = ckind, cdetail+" (with empty pools, as in a new process)"
 	} else {
 		kind, detail = fkind, fdetail
 	}
